@@ -35,7 +35,7 @@ def traced(kind, ident):
         return int(ident) < IRM_GEN[_TIER[0]]
     if kind == "fam":
         parts = ident.split("-")
-        return len(parts) <= 2 or _TIER[0] == "thorough"
+        return len(parts) <= 2 or (_TIER[0] == "thorough" and sum(map(ord, ident)) % 5 == 0)
     return False
 
 
